@@ -3906,7 +3906,7 @@ def repartition(array, lengths, highlevel=True, behavior=None):
 
             howmany = len(layout) // lengths
             remainder = len(layout) - howmany * lengths
-            if remainder == 0:
+            if remainder == 0 and howmany != 0:
                 lengths = [lengths] * howmany
             else:
                 lengths = [lengths] * howmany + [remainder]
